@@ -656,6 +656,17 @@ func verifNewTimeOutManager(logger btclog.Logger) (m *TimeoutManager) { return N
 //@   modifies t.interval, t.ticker, t.quit, t.lastTimedTick, chanstate(t.quit)
 //@   ensures tkinv(t) && fresh(t.ticker) && fresh(t.quit)
 
+// The ticker's clock goroutine: both of its blocking selects (waiting for a
+// tick, and handing a fired tick to Force) must be woken by the close of the
+// ticker's quit channel - Reset and Stop close it and then wait for the
+// goroutine while holding resetMtx.
+//@ chan IntervalAwareForceTicker.quit closeonly
+//@ func (t *IntervalAwareForceTicker) start()
+//@   props C12 C18
+//@   inline
+//@   noframe
+//@   requires t != nil && t.ticker != nil
+
 //@ func (t *IntervalAwareForceTicker) Pause()
 //@   props C07 C18
 //@   modifies chanlog[struct{}]()
@@ -813,6 +824,9 @@ func gopen(g *GoBackNConn) bool {
 //@   ensures err == nil && oncedone(&g.closeOnce)
 //@   at "err := g.sendPacket(ctxc" assert @C12 ctxtimeout(ctxc) == g.timeoutManager.finSendTimeout &&
 //@          nevents("call.GoBackNConn.cancel") == old(nevents("call.GoBackNConn.cancel"))
+//@   at "g.pingTicker.Stop()" assert @C12 exists(old(nevents("wg.wait")), nevents("wg.wait"), func(i int) bool { return eventref[*GoBackNConn]("wg.wait", i) == g })
+//@   at "g.pongTicker.Stop()" assert @C12 exists(old(nevents("wg.wait")), nevents("wg.wait"), func(i int) bool { return eventref[*GoBackNConn]("wg.wait", i) == g })
+//@   at "g.resendTicker.Stop()" assert @C12 exists(old(nevents("wg.wait")), nevents("wg.wait"), func(i int) bool { return eventref[*GoBackNConn]("wg.wait", i) == g })
 //@   ensures @C12 closed(g.quit) && closed(g.sendQueue.quit)
 //@   ensures @C12 implies(old(oncedone(&g.closeOnce)), wirelen() == old(wirelen()) && nevents("call.GoBackNConn.cancel") == old(nevents("call.GoBackNConn.cancel")))
 //@   ensures @C12 implies(!old(oncedone(&g.closeOnce)) && !old(closed(g.remoteClosed)), wirelen() == old(wirelen())+1 && wirebyte(old(wirelen())) == FIN)
